@@ -19,7 +19,7 @@ HIST = {
                 builds=[('rel-plain', 120000, 5000000), ('dbg-asan', 30000, 1000000)]),
     'C07': dict(profile='portability', groups=['core', 'io', 'conv'], compile_groups=(),
                 builds=[('rel-plain', 120000, 5000000), ('dbg-asan', 30000, 1000000)]),
-    'C15': dict(profile='ub', groups=['core', 'io', 'conv'], compile_groups=(), cross=True,
+    'C15': dict(profile='ub', groups=['core', 'io', 'conv'], compile_groups=(), cross=True, valgrind=(2000, 60000),
                 builds=[('dbg-asan', 30000, 1000000), ('rel-asan', 30000, 1000000), ('dbg-plain', 30000, 1000000),
                         ('rel-plain', 30000, 1000000)]),
 }
@@ -98,6 +98,30 @@ def check(prop, tier, seed):
                 else:
                     key = r['key']
                 viol_first.setdefault(key, (b, r))
+    # memcheck pass (C15): the same program space under valgrind, uninitialised-value use is
+    # something ASan cannot see
+    vg_runs = 0
+    if cfg.get('valgrind'):
+        import shutil
+        vg = shutil.which('valgrind')
+        if vg:
+            vexe, vfailed = build.build_world('hist', 'val-plain', cfg['groups'], thorough=thorough)
+            nq, nt = cfg['valgrind']
+            t0 = time.time()
+            results, stats = run.run_batch(vexe, base_args, nt if thorough else nq, 16,
+                                           wrapper=[vg, '-q', '--error-exitcode=0'], stall_timeout=600)
+            dt = time.time() - t0
+            per_build['val-plain+valgrind'] = dict(runs=len(results), wall_s=round(dt, 2),
+                                                   runs_per_hour=int(len(results) / dt * 3600) if dt > 0 else 0)
+            vg_runs = len(results)
+            total_runs += len(results)
+            exes['val-plain+valgrind'] = vexe
+            for r in results:
+                if not r['ok']:
+                    key = checks.death_key(r, STACK_IDS) if r.get('death') else r['key']
+                    if r.get('death') and checks.is_benign_death(r):
+                        continue
+                    viol_first.setdefault(key, ('val-plain+valgrind', r))
     # cross-build comparison of the observation logs (C15)
     diverged = 0
     if cfg.get('cross'):
@@ -178,14 +202,29 @@ def handle_violation(rep, prop, cfg, exes, disabled, seed, tier, key, b, r):
         return
     res = run.run_once(exe, base_args + ['--emit-plan', str(r['run'])])
     plan = '\n'.join(res['out']) + '\n'
-    rp = checks.Replayer(exe, disabled, STACK_IDS)
+    wrapper = None
+    if b.endswith('+valgrind'):
+        import shutil
+        wrapper = [shutil.which('valgrind'), '-q', '--error-exitcode=0']
+    rp = checks.Replayer(exe, disabled, STACK_IDS, wrapper=wrapper)
     # gate 1: the plan of that seed, replayed twice in fresh processes, gives the same key
-    k1, d1 = rp.key_of(plan)
-    k2, _ = rp.key_of(plan)
-    if k1 != key or k2 != key:
-        rep.nonrepro.append('key=%s build=%s run=%d replayed as %s / %s' % (key, b, r['run'], k1, k2))
+    if r.get('death') and r.get('proc_start', r['run']) < r['run']:
+        k1, _ = rp.key_of(plan)
+        if k1 is None:
+            # The run the worker died in is clean on its own: the damage was done by an
+            # earlier run of the same worker process (only possible in the builds without
+            # ASan, which would have stopped at the source). Reproduce the process as it was.
+            return handle_cross_run(rep, prop, exe, base_args, b, r)
+    key, d1 = checks.confirm(rep, rp, plan, key, 'build=%s run=%d' % (b, r['run']))
+    if key is None:
         return
-    small, used = checks.minimise(plan, rp, key)
+    if (prop, key) in rep.known or key in rep.violations:
+        small, used = plan, 0
+    elif rep.minimised >= rep.max_minimise:
+        small, used = plan, 0  # many keys from one defect: the first few are minimised, the rest replay as found
+    else:
+        rep.minimised += 1
+        small, used = checks.minimise(plan, rp, key)
     # gate 2: the minimised file reproduces in a fresh process
     k3, d3 = rp.key_of(small)
     if k3 != key:
@@ -194,7 +233,7 @@ def handle_violation(rep, prop, cfg, exes, disabled, seed, tier, key, b, r):
     path = checks.replay_path(prop, key)
     with open(path, 'w') as f:
         f.write(small)
-        f.write('build %s\nexpect %s\n' % (b, key))
+        f.write('build %s\nexpect %s\n' % (b.replace('+valgrind', ' valgrind'), key))
         f.write('# found by seed %d run %d; minimised with %d replays; detail: %s\n' % (seed, r['run'], used, (d3 or '')[:300]))
     rep.add_violation(key, (d3 or r.get('detail', ''))[:300], path)
 
@@ -253,3 +292,48 @@ def check_golden(rep, seed, tier, thorough):
         out['files'] = max(out['files'], len(files))
         out['builds'].append(b)
     return out
+
+
+def range_key(exe, base_args, a, b_excl):
+    """Execute runs [a, b) in one fresh worker process; -> (death class or None, detail)."""
+    res = run.run_once(exe, base_args + ['--runs', '%d:%d' % (a, b_excl)], timeout=600)
+    if any(l.startswith('DONE') for l in res['out']) and res['rc'] == 0:
+        return None, 'range completed'
+    if any(l.startswith('RESTART') for l in res['out']) and res['rc'] == 0:
+        viol = [l for l in res['out'] if ' VIOL ' in l]
+        return None, 'range stopped at a reported violation: %s' % (viol[-1][:200] if viol else '')
+    prog = res['prog'] or {}
+    cls, detail = run.classify_death(res['rc'], res['err'], res['out'][-20:])
+    opk = prog.get('op_kind', 0)
+    opn = run.OP_NAMES[opk] if 0 <= opk < len(run.OP_NAMES) else str(opk)
+    return '%s:cross-run:%s' % (cls, opn), detail
+
+
+def handle_cross_run(rep, prop, exe, base_args, b, r):
+    a, last = r['proc_start'], r['run']
+    k1, d1 = range_key(exe, base_args, a, last + 1)
+    k2, _ = range_key(exe, base_args, a, last + 1)
+    if k1 is None or k1 != k2:
+        rep.nonrepro.append('worker death at run %d (process started at run %d) in build %s: neither the run alone nor the '
+                            'process range reproduces it (%s / %s)' % (last, a, b, k1, k2))
+        return
+    # shorten the range from the front while the same death persists
+    lo = a
+    step = max(1, (last - a) // 2)
+    budget = 24
+    while step >= 1 and budget > 0:
+        cand = lo + step
+        if cand <= last:
+            budget -= 1
+            kk, _ = range_key(exe, base_args, cand, last + 1)
+            if kk == k1:
+                lo = cand
+                continue
+        step //= 2
+    path = checks.replay_path(prop, k1)
+    with open(path, 'w') as f:
+        f.write('# covfie-sim replay v1\nworld hist-range\n')
+        f.write('range args=%s runs=%d:%d\n' % ('|'.join(base_args), lo, last + 1))
+        f.write('build %s\nexpect %s\n' % (b, k1))
+        f.write('# a worker process executing these consecutive runs dies in the last one, which is clean on its own: an earlier run of the range damaged the heap. %s\n' % (d1 or '')[:300])
+    rep.add_violation(k1, 'runs %d..%d in one process: %s' % (lo, last, (d1 or '')[:200]), path)
